@@ -98,6 +98,20 @@ def fixed_param(draw, cost, p):
             c = draw(st.sampled_from([1.0, 2.0] if param["int_typed"] else [0.5, 1.0, 2.0]))
             A = np.asarray(A, dtype=float)
             param["cov"] = ((A @ A.T + c * np.eye(p)) * scale).tolist()
+    if p >= 2 and not param["int_typed"] and draw(st.integers(0, 3)) == 0:
+        # per-column parameters whose entries are arithmetically related although none of them is the standard value: balanced
+        # contrasts (means summing to exactly 0), variances / a diagonal covariance multiplying to exactly 1 (powers of two)
+        half = [draw(st.sampled_from([1.0, 0.5, 2.0, 3.0, 0.25])) for _ in range(p // 2)]
+        means = half + [-v for v in half] + [0.0] * (p % 2)
+        param["mean"] = list(draw(st.permutations(means))) if draw(st.booleans()) else (0.0 if draw(st.booleans()) else param["mean"])
+        exps = [draw(st.integers(-3, 3)) for _ in range(p - 1)]
+        exps.append(-sum(exps))
+        powers = [2.0 ** e for e in exps]
+        if cost == "GaussianVarCost" and draw(st.integers(0, 3)) > 0:
+            param["var"] = powers
+        elif cost == "GaussianCovCost" and draw(st.integers(0, 3)) > 0:
+            param["cov"] = np.diag(powers).tolist()
+        param["related_entries"] = True
     return param
 
 
@@ -620,6 +634,10 @@ def wide_cells(tier):
                 i += 1
                 yield {"cost": cost, "p": p_, "n": 4 * p_ + i % 7, "unit": unit, "seed": 4000 + i,
                        "fixed": i % 3 == 0}
+    # several hundred channels (sensor arrays, spectra; beyond 2^8 and 2^9 columns) on short series: per-column costs
+    for j, (p_, n) in enumerate([(257, 40), (300, 60), (520, 33)] + ([(1030, 24), (256, 50)] if tier != "quick" else [])):
+        for cost in ("L2Cost", "GaussianVarCost"):
+            yield {"cost": cost, "p": p_, "n": n, "unit": 1.0, "seed": 4500 + j, "fixed": j % 2 == 1}
 
 
 def check_wide(case):
@@ -703,7 +721,7 @@ FACETS = [
         name="wide_data", kind="enumerate", enumerate=wide_cells, check=check_wide, exhaustive=True, time_limit=300,
         rule=("p in {20,50,100,120} (thorough: up to 160) columns, n ~ 4p, seeded Gaussian data in units 1e-3..1e3 (per-column spread 0.5..2, "
               "|log det| up to several hundreds), all three costs with optimal and scalar fixed parameters, whole-series and long sub-intervals; "
-              "same definitional oracle; every cell non-trivial"),
+              "and the two univariate costs on 257 / 300 / 520 columns (thorough: up to 1030) x 24-60 rows; same definitional oracle; every cell non-trivial"),
         shards_quick=8, shards_thorough=16, max_samples=1,
     ),
 ]
